@@ -44,12 +44,15 @@ manifest = {
         "path": "simbib/",
         "serves_properties": sorted(registry.CHECKS),
         "kind_free_text": "single-process deterministic simulator: seeded generator of operation+fault histories, interpreter against "
-                          "the real code and a reference model, step-wise invariants, ddmin minimiser, replay files; 16 forked workers",
+                          "the real code and a reference model, step-wise invariants, ddmin minimiser, replay files (single run or multi-run session); 16 forked workers, one fresh process per chunk of runs",
     }],
     "checks": checks,
     "not_applicable": [{"property_id": p, "reason": r} for p, r in sorted(registry.NOT_APPLICABLE.items())],
     "notes": "See DESIGN.md. Exit codes of ./check: 0 held / only known findings; 1 VIOLATION; 2 HARNESS-ERROR; 3 replay NOT-REPRODUCED. "
-             "known_findings.json lists recorded (status=known) and repaired (status=fixed) defects; fix: commits live in /repo.",
+             "known_findings.json lists recorded (status=known) and repaired (status=fixed) defects; fix: commits live in /repo. "
+             "Replay files are of two kinds: one run (op list), or a session (kind=session: the op lists of earlier runs of the same "
+             "process, then the failing run) for violations that need state the code under test keeps between calls; "
+             "./check <id> --replay replays both in a fresh interpreter.",
 }
 with open(os.path.join(HERE, "MANIFEST.json"), "w") as f:
     json.dump(manifest, f, indent=1)
